@@ -26,10 +26,13 @@ BUILD_TARGETS = ["DfolsVerif.Driver.TrsDrv"]     # what lean/TrsMain.lean import
 def pre_build(ctx):
     import gen_kernels
     ctx.cov["trproj_placement_functions"] = gen_kernels.regenerate_trproj(ctx)
+    import gen_trsclip
+    gen_trsclip.regenerate(ctx)
 
 
 THEOREMS = [
     "Dfols.C13.gen_trproj_last",
+    "Dfols.C13.gen_ballStep_eq",
     "Dfols.C13.trsbox_linear_box_ball",
     "Dfols.C13.trsbox_linear_descent",
     "Dfols.C13.trsbox_geometry_box_ball",
